@@ -39,7 +39,7 @@ PROPS = {
     "C03": {
         "harness": "c03",
         "quick": {"workers": 8, "cases": 2500, "size": 24},
-        "thorough": {"workers": 16, "cases": 15000, "size": 36},
+        "thorough": {"workers": 16, "cases": 6000, "size": 36},
         "min_nontrivial_frac": 0.3,
         "rule": GEN_TA + "single automata plus injected shapes (final state without rules + unreachable rule owner, no final state, rule over a never-productive child); "
                 "RemoveUnreachableStates / RemoveUselessStates (with and without translation map) compared by language with the input and checked for dead states/rules on the result; "
